@@ -395,13 +395,6 @@ Section DedupPass.
   Lemma flat_eqb_leaf_l : forall x s, flat_eqb x s = true -> is_leaf_field x = true.
   Proof. intros x s E. destruct x as [a n g d [|]| |]; try discriminate. reflexivity. Qed.
 
-  (* dd_level with an accumulated [seen] is the relation with the originals as [seen] *)
-  Lemma dd_level_dl : forall l seen,
-      Forall (fun s => ds s (dd_sel s)) l ->
-      dl (seen) l (dd_level (map dd_sel seen) (map dd_sel l)) ->
-      True.
-  Proof. auto. Qed.
-
   Lemma existsb_seen : forall seen s,
       existsb (fun x => flat_eqb x s) (map dd_sel seen) = true ->
       exists x, In x seen /\ flat_eqb x s = true.
@@ -451,4 +444,46 @@ Proof.
   - intro n. rewrite find_frag_map. destruct (find_frag n (doc_frags d)) as [fr|]; cbn [option_map]; [|reflexivity].
     exists (rw_frag (fun f => dd_sels (fr_sels f)) fr). split; [reflexivity|]. split; [reflexivity|]. cbn. apply dd_sels_dl.
   - apply dd_sels_dl.
+Qed.
+
+(* ------------------------------------------------------------------ idempotence *)
+Lemma dd_level_idem : forall m seen, dd_level seen (dd_level seen m) = dd_level seen m.
+Proof.
+  induction m as [|s m IH]; intros seen; cbn [dd_level]; [reflexivity|].
+  destruct (existsb (fun x => flat_eqb x s) seen) eqn:E; [apply IH|].
+  cbn [dd_level]. rewrite E. f_equal. apply IH.
+Qed.
+Lemma dd_level_sub : forall m seen, incl (dd_level seen m) m.
+Proof.
+  induction m as [|s m IH]; intros seen x Hx; cbn [dd_level] in Hx; [exact Hx|].
+  destruct (existsb (fun y => flat_eqb y s) seen).
+  - right. eapply IH. exact Hx.
+  - destruct Hx as [Hx|Hx]; [left; exact Hx|right; eapply IH; exact Hx].
+Qed.
+Lemma map_id_on : forall (g : selection -> selection) l, (forall x, In x l -> g x = x) -> map g l = l.
+Proof. induction l as [|x l IH]; intro H; cbn; [reflexivity|]. rewrite H by (left; reflexivity). f_equal. apply IH. intros; apply H; right; assumption. Qed.
+
+Lemma dd_list_idem : forall l, Forall (fun s => dd_sel (dd_sel s) = dd_sel s) l ->
+                               dd_level [] (map dd_sel (dd_level [] (map dd_sel l))) = dd_level [] (map dd_sel l).
+Proof.
+  intros l H.
+  rewrite (map_id_on dd_sel (dd_level [] (map dd_sel l))); [apply dd_level_idem|].
+  intros x Hx. apply dd_level_sub in Hx. apply in_map_iff in Hx. destruct Hx as [s [Hs Hin]]. subst x.
+  rewrite Forall_forall in H. apply H. exact Hin.
+Qed.
+Lemma dd_sel_idem : forall s, dd_sel (dd_sel s) = dd_sel s.
+Proof.
+  induction s using sel_ind'; cbn [dd_sel].
+  - f_equal. apply dd_list_idem. exact H.
+  - f_equal. apply dd_list_idem. exact H.
+  - reflexivity.
+Qed.
+Lemma dd_sels_idem : forall l, dd_sels (dd_sels l) = dd_sels l.
+Proof. intro l. unfold dd_sels. apply dd_list_idem. apply Forall_forall. intros; apply dd_sel_idem. Qed.
+
+Theorem dedup_idempotent : forall d, dedup (dedup d) = dedup d.
+Proof.
+  intro d. unfold dedup, map_doc_sels. rewrite map_map. apply map_ext. intros [o|f]; cbn.
+  - f_equal. f_equal. apply dd_sels_idem.
+  - f_equal. f_equal. apply dd_sels_idem.
 Qed.
